@@ -6,6 +6,7 @@ import (
 	"go/constant"
 	"go/token"
 	"go/types"
+	"regexp"
 	"sort"
 	"strings"
 
@@ -28,6 +29,8 @@ func init() {
 		Run:         runC15,
 	})
 }
+
+var presenceCond = regexp.MustCompile(`^!?[A-Za-z_][A-Za-z0-9_.]*(==|!=)var:nil$|^len\([A-Za-z_][A-Za-z0-9_.]*\)(==|!=|>)0$`)
 
 type codecPair struct {
 	Name   string
@@ -122,6 +125,24 @@ func (c *Check) compareCodecPair(rule string, rel string, pr codecPair) {
 	if ws == rs {
 		bad = append(bad, compareLoops(pr.Writer.Ops, pr.Reader.Ops, pr.Writer)...)
 	}
+	// presence of an optional part must be exactly nil-ness of the field (a representable non-nil
+	// value must not be written as absent)
+	var walk func(ops []cop)
+	walk = func(ops []cop) {
+		for _, o := range ops {
+			switch o.Kind {
+			case "Alt":
+				if !presenceCond.MatchString(o.Cond) {
+					bad = append(bad, fmt.Sprintf("the optional part is written under the condition %q, which is more than a nil test of the field: a non-nil value can be written as absent", o.Cond))
+				}
+				walk(o.A)
+				walk(o.B)
+			case "Loop":
+				walk(o.Body)
+			}
+		}
+	}
+	walk(pr.Writer.Ops)
 	if len(bad) == 0 {
 		c.Ok(rule, key, pos, "codec grammar", "grammar %q fields [%s]", ws, wf)
 	} else {
